@@ -68,7 +68,8 @@ theorem Absorb.track_eq {cap mc : Nat} {A E : Bytes} (h : Absorb cap mc A E) (F 
 /-- Behind an absorbed prefix, `parse_request` is `parse_request` of the rest of the wire, started
 on the log with `E` appended. -/
 theorem PSt.shift {cap mc : Nat} {A E W L0 Z : Bytes} {c : Conn} {F : Bytes} (h : Absorb cap mc A E)
-    (hst : PSt cap mc (A ++ W) L0 Z c (A ++ F)) : PSt cap mc W (L0 ++ E) Z c F := by
+    (hst : PSt cap mc (A ++ W) L0 Z c (A ++ F)) (hrd : ∃ q, c.phase = .parseReq q .reading) :
+    PSt cap mc W (L0 ++ E) Z c F := by
   obtain ⟨hwire, hstop, hben, hrem, hph⟩ := hst
   have hrun := h.app F
   refine ⟨?_, hstop, hben, by rw [hrun] at hrem; exact hrem, ?_⟩
@@ -78,9 +79,12 @@ theorem PSt.shift {cap mc : Nat} {A E W L0 Z : Bytes} {c : Conn} {F : Bytes} (h 
     exact this
   · rw [h.track_eq F, hrun] at hph
     simp only [pre] at hph
-    rcases hph with ⟨a, b, c'⟩ | ⟨rest, a, b⟩
+    rcases hph with ⟨a, b, c'⟩ | ⟨rest, a, b, _⟩
     · exact Or.inl ⟨a, b, by rw [c', List.append_assoc]⟩
-    · exact Or.inr ⟨rest, a, by rw [b, List.append_assoc]⟩
+    · -- (while a `write_all` is pending, part of `E` may still be unsent: no shift there)
+      obtain ⟨q, hq⟩ := hrd
+      rw [hq] at a
+      cases a
 
 /-! ## The aborted preamble, record by record -/
 
@@ -450,10 +454,10 @@ theorem apre_pst {A E L : Bytes} {g : Cfg} (ok : g.OK) (hab : Absorb g.cap g.mc 
   have hev1 : hsCount c1.env.tr.events = g.hs0 := hfr.ts.hs.trans hev
   have hin1 := hfr.ts.tle.input_len
   -- behind the prefix: a poll of the request itself
-  have behind : ∀ e, PSt g.cap g.mc (A ++ g.W) L [] c1 (A ++ e) →
+  have behind : ∀ e, PSt g.cap g.mc (A ++ g.W) L [] c1 (A ++ e) → (∃ q, c1.phase = .parseReq q .reading) →
       SRes (APre A L g) g (6 * c.env.tr.input.length + 19) c := by
-    intro e h1
-    have h2 : PSt g.cap g.mc g.W g.L0 [] c1 e := by rw [hL]; exact h1.shift hab
+    intro e h1 hrd
+    have h2 : PSt g.cap g.mc g.W g.L0 [] c1 e := by rw [hL]; exact h1.shift hab hrd
     exact Or.inr ((Res.of_steps hs hfr.link (parse_poll ok h2 hsc1 hm1 hev1)).mono (by omega))
   rcases hout with ⟨c2, h1, h2, h3, h4, h5⟩ | ⟨rest, t', hph, hf, hw, hstop1, hben1, hrem1, hwa, hlog, hts', hinp'⟩ |
       ⟨hin, hnf, hph, hst1⟩
@@ -461,20 +465,25 @@ theorem apre_pst {A E L : Bytes} {g : Cfg} (ok : g.OK) (hab : Absorb g.cap g.mc 
     refine ⟨c2, ⟨n, c1, by omega, hs, h1⟩, hfr.link.trans h3.link,
       ⟨Or.inl ⟨F1, h2⟩, h3.scripts.trans hsc1, h3.mutex.trans hm1, h3.ts.hs.trans hev1⟩, h4,
       by have := hfr.ts.ans_le; omega⟩
-  · have hst1 : PSt g.cap g.mc (A ++ g.W) L [] c1 F1 := by
-      refine ⟨hw, hstop1, hben1, hrem1, Or.inr ⟨rest, by rw [hf]; exact hph, ?_⟩⟩
-      obtain ⟨_, _, ⟨dn, hd, hl⟩, _⟩ := writeAllLoop_ben _ _ _ hben1 (Nat.lt_succ_self _) hwa
-      rw [List.append_nil] at hd
-      rw [hd, ← hl, hlog]
-    have hpre : F1 <+: A ++ g.W := ⟨c1.env.tr.input, by simpa using hw⟩
+  · have hpre : F1 <+: A ++ g.W := ⟨c1.env.tr.input, by simpa using hw⟩
     rcases prefix_append_cases hpre with ⟨e, rfl, _⟩ | ⟨t, _, hFt⟩
-    · exact behind e hst1
+    · -- the preamble of `g` is complete; its last `write_all` (which may still carry part of `E`) completes
+      have hrun := hab.app e
+      have hw' : e ++ c1.env.tr.input ++ [] = g.W := by
+        rw [List.append_nil] at hw ⊢
+        rw [List.append_assoc] at hw
+        exact List.append_cancel_left hw
+      have hfp := final_poll ok (F1 := e) (rest := rest) (t' := t')
+        (by rw [← hab.track_eq e]; exact hph) (by rw [hrun] at hf; exact hf) hw' hstop1 hben1
+        (by rw [hrun] at hrem1; exact hrem1) hwa
+        (by rw [hlog, hrun, hL]; simp only [pre, List.append_assoc]) hts' hinp' hsc1 hm1 hev1
+      exact Or.inr ((Res.of_steps hs hfr.link hfp).mono (by omega))
     · rw [hab.nonfinal ⟨t, hFt⟩] at hf; cases hf
   · have hF1 : F1 = A ++ g.W := by
       have := hst1.wire
       rwa [hin, List.append_nil, List.append_nil] at this
     subst hF1
-    exact behind g.W hst1
+    exact behind g.W hst1 ⟨_, hph⟩
 
 /-- **One poll** from inside `parse_request` on `A ++ g.W`. -/
 theorem apre_poll {A E L : Bytes} {g : Cfg} (ok : g.OK) (hab : Absorb g.cap g.mc A E) (hL : g.L0 = L ++ E)
@@ -495,7 +504,7 @@ theorem apre_poll {A E L : Bytes} {g : Cfg} (ok : g.OK) (hab : Absorb g.cap g.mc
         (.writing (run .header raw g.mc).out (run .header raw g.mc).st.isFinal)) c.env.tr) raw :=
       ⟨by show raw ++ c.env.tr.input ++ [] = A ++ g.W
           rw [List.append_nil]; exact hwire,
-        hstop, hb, hremle, Or.inr ⟨_, rfl, by show c.env.tr.wlog ++ _ = _; rw [hlog]⟩⟩
+        hstop, hb, hremle, Or.inr ⟨_, rfl, by show c.env.tr.wlog ++ _ = _; rw [hlog], [], rfl⟩⟩
     have := SRes.of_steps (Steps.one hstep') (mkC_link c _ (.refl _)) (apre_pst ok hab hL hst hsc hm hev)
     exact this.mono (by show 1 + (6 * c.env.tr.input.length + 19) ≤ _; omega)
 
